@@ -2,7 +2,7 @@
    Only theorem statements closed by `exact` (or a one-line combination), each followed by
    Print Assumptions; plus the non-vacuity examples and the refutation witness of F6. *)
 From Snax Require Import Base.Prelude Model.Tsl Model.C05Copy Proofs.TslProofs
-  Proofs.C05MemProofs Proofs.C05MainProofs Proofs.C05ExtraProofs.
+  Proofs.C05MemProofs Proofs.C05MainProofs Proofs.C05ExtraProofs Model.C05Dyn Proofs.C05DynProofs.
 
 (* For all ranks, tile depths, shapes, static layouts with positive bounds and equal tile bounds,
    element sizes and offsets: under Safe_lccb, a destination layout that does not self-overlap and
@@ -62,6 +62,20 @@ Proof.
   destruct (lower_bursts src dst el so do_ Hs Hd Hetb Hsafe Hso Hdo) as [c [Hc _]]. exists c. exact Hc.
 Qed.
 Print Assumptions C05_lower_total.
+
+(* the run-time lowering (dynamic dims / strides / offsets resolved on a descriptor, Model/C05Dyn.v)
+   coincides with the static lowering on static layouts, whatever metadata is supplied: the theorems
+   above therefore also hold for the code `lower_dyn` produces on static inputs *)
+Theorem C05_lower_dyn_static :
+  forall (src dst : layout) (el so do_ : Z) (smd dmd : rtmd),
+    layout_okb src = true -> layout_okb dst = true -> equal_tile_bounds src dst = true ->
+    offset src = Some so -> offset dst = Some do_ ->
+    lower_dyn src dst el (shape_of src) smd dmd = lower src dst el (shape_of src).
+Proof.
+  intros src dst el so do_ smd dmd Hs Hd. apply layout_okb_ok in Hs, Hd.
+  exact (lower_dyn_static src dst el so do_ smd dmd Hs Hd).
+Qed.
+Print Assumptions C05_lower_dyn_static.
 
 (* MatchSimpleCopy (both layouts identity): one 1-D transfer moves every row-major element *)
 Theorem C05_simple_copy_correct :
